@@ -472,9 +472,9 @@ func tagChainCases(prefix string) []cases.ScanCase {
 				names := map[int][]byte{1: []byte("big.bin"), 2: []byte("dir"), 3: []byte("deep.txt"), 4: []byte("README"), 5: []byte("sub dir")}
 				g.Blobs = []int{5, 700, 9}
 				g.Trees = [][]model.Entry{
-					{{K: "file", To: 3, N: 3, NL: 8}},                                                                  // t1: dir
+					{{K: "file", To: 3, N: 3, NL: 8}}, // t1: dir
 					{{K: "file", To: 2, N: 1, NL: 7}, {K: "tree", To: 1, N: 2, NL: 3}, {K: "tree", To: 1, N: 5, NL: 7}}, // t2: reached through tags only
-					{{K: "file", To: 1, N: 4, NL: 6}},                                                                  // t3: root tree of c1
+					{{K: "file", To: 1, N: 4, NL: 6}}, // t3: root tree of c1
 				}
 				g.Commits = []model.Commit{{Tree: 3, Parents: []int{}}}
 				tk, to := "t", 2
